@@ -302,9 +302,6 @@ Definition aids (ms : list amember) : list Z := map am_id ms.
 Definition flat_desc (d : adesc) : bool :=
   forallb (fun m => flat_aty (am_ty m) && negb (m_opt (am_info m))) (ad_members d) &&
   nodup_z (aids (ad_members d)) && forallb id_ok (aids (ad_members d)).
-(* the member ids the XCDR2 parameter search can tell apart (it compares `as u16`) *)
-Definition ids_u16 (d : adesc) : bool := forallb (fun k => k <? 65536) (aids (ad_members d)).
-
 (* XTypes default value of a member type (zero / empty string) *)
 Definition default_val (t : ty) : option val :=
   match t with
